@@ -40,17 +40,19 @@ Definition rstep (st : rstate) (e : devent) : rstate :=
       end
   end.
 
-Definition rinv (st : rstate) : Prop :=
+(* e0 = the number of err() diagnostics before the run (0 on a fresh device): the run adds none *)
+Definition rinvE (e0 : Z) (st : rstate) : Prop :=
   r_within st = true ->
   exists s, drel (r_dev st) s /\ linv s (r_taken st) /\ l_consumed s = r_consumed st
-            /\ r_delivered st ++ abs (d_to (r_dev st)) = l_replies s /\ d_errs (r_dev st) = 0.
+            /\ r_delivered st ++ abs (d_to (r_dev st)) = l_replies s /\ d_errs (r_dev st) = e0.
+Definition rinv := rinvE 0.
 
 Lemma taken_prefix (w rest : list byte) : ztake (zlen (w ++ rest) - zlen rest) (w ++ rest) = w.
 Proof. rewrite zlen_app. replace (zlen w + zlen rest - zlen rest) with (zlen w) by lia. apply ztake_app_exact. Qed.
 
-Lemma rstep_inv st e : rinv st -> rinv (rstep st e).
+Lemma rstep_invE e0 st e : rinvE e0 st -> rinvE e0 (rstep st e).
 Proof.
-  intros Hinv. destruct st as [d taken consumed delivered within]. unfold rinv in *. cbn [r_dev r_taken r_consumed r_delivered r_within] in *.
+  intros Hinv. destruct st as [d taken consumed delivered within]. unfold rinvE in *. cbn [r_dev r_taken r_consumed r_delivered r_within] in *.
   destruct e as [fd|n|script]; cbn [rstep r_dev r_taken r_consumed r_delivered r_within].
   - destruct (handle_read d fd) as [[[d' err] dropped] fd'] eqn:Eh.
     cbn [r_dev r_taken r_consumed r_delivered r_within]. intros Hw.
@@ -90,8 +92,14 @@ Proof.
     split; [rewrite <- app_assoc, Bt; assumption | congruence].
 Qed.
 
+Lemma rstep_inv st e : rinv st -> rinv (rstep st e).
+Proof. apply rstep_invE. Qed.
+
+Lemma rrun_invE e0 evs : forall st, rinvE e0 st -> rinvE e0 (fold_left rstep evs st).
+Proof. induction evs as [|e evs IH]; intros st H; cbn [fold_left]; [assumption|]. apply IH, rstep_invE, H. Qed.
+
 Lemma rrun_inv evs : forall st, rinv st -> rinv (fold_left rstep evs st).
-Proof. induction evs as [|e evs IH]; intros st H; cbn [fold_left]; [assumption|]. apply IH, rstep_inv, H. Qed.
+Proof. apply rrun_invE. Qed.
 
 (* the state right after a connect on freshly created buffers *)
 Definition rinit (d : dev) : rstate := mkR (connected d) [] [] [] true.
